@@ -67,6 +67,7 @@ fn main() {
             let Some(spec) = props::spec(id) else {
                 std::process::exit(2);
             };
+            engine::install_crash_handler(spec.id);
             std::process::exit(engine::run_worker(&spec, sub, seed, tier, &shards));
         }
         Some("replay") => {
@@ -83,6 +84,7 @@ fn main() {
                 known: std::sync::Arc::new(KnownFindings::load()),
                 strict: true,
             };
+            engine::install_replay_crash_handler(spec.id, file);
             match engine::replay_file(&spec, &ctx, Path::new(file)) {
                 Ok(None) => {
                     println!("replay held: property={id} file={file}");
